@@ -1,6 +1,6 @@
 PID = "C01"
 WORKER = "w_c01"
-HEADER = "From Coq Require Import List ZArith QArith Qcanon.\nFrom Dimod Require Import Base.Util Model.Poly Model.HPoly Model.Samples Model.EnergyCy Model.ChkC01.\nFrom Dimod Require Model.Adj Model.PyBqm Model.ViewOps Gen.Gen_View.\nImport ListNotations."
+HEADER = "From Coq Require Import List ZArith QArith Qcanon.\nFrom Dimod Require Import Base.Util Model.Poly Model.HPoly Model.Samples Model.EnergyCy Model.ChkC01.\nFrom Dimod Require Model.Adj Model.PyBqm Model.ViewOps Gen.Gen_View Model.AsSamples.\nImport ListNotations."
 CHECK_FN = "check"
 N_QUICK = 2400
 N_THOROUGH = 60000
